@@ -20,8 +20,11 @@
              (finding F10): with no candidate, `best` stayed "" and the placeholder was replaced
              by an EMPTY account; the `other` of the debit side was the credit account as it was
              BEFORE inference (so both sides of `TBD TBD` could get the same account).
-   The model takes ONE training text: `include` directives of the training file (the command
-   reads it with ParseFileRecursively) are not followed.  Executable definitions only.       *)
+   [infer_with] takes ONE training text.  The command reads the training journal with
+   ParseFileRecursively: Model/InferFs.v is the command on a file tree (include resolution by
+   Model/Loader.v, training on every visited file) and coincides with [infer_with] when the
+   training file has no include directive (Properties/C15.v C15_training_without_includes).
+   Executable definitions only.                                                              *)
 From Coq Require Import ZArith List Bool.
 From Knut Require Import Model.Bytes Model.Utf8 Model.Scanner Model.Parser Model.SynPrinter
   Spec.FormatSpec Model.SynRender.
